@@ -27,7 +27,12 @@ mod refjson;
 
 use common::Out;
 
+/// the request being executed: printed by the panic hook, so that even a non-unwinding panic
+/// (an abort: panic inside a `Drop` during unwinding, …) names the input that caused it
+static CUR: std::sync::Mutex<String> = std::sync::Mutex::new(String::new());
+
 pub fn exec_line(line: &str, out: &mut Out) {
+    if let Ok(mut c) = CUR.lock() { c.clear(); c.push_str(line); }
     let mut it = line.splitn(2, ' ');
     let head = it.next().unwrap_or("");
     let rest = it.next().unwrap_or("");
@@ -74,7 +79,9 @@ fn real_main() {
     let thorough = args[3] == "thorough";
     let seed: u64 = args[4].parse().unwrap_or(0);
     let workdir = &args[5];
-    std::panic::set_hook(Box::new(|_| {}));
+    std::panic::set_hook(Box::new(|_| {
+        if let Ok(c) = CUR.try_lock() { eprintln!("PANIC-CASE: {}", c); }
+    }));
     let mut out = Out::new(prop, workdir, seed);
     for f in &args[6..] {
         let text = std::fs::read_to_string(f).unwrap_or_default();
